@@ -74,6 +74,12 @@ int main(int argc, char** argv) {
       fs.writeAbs(meminfoPath, "MemTotal: " + std::to_string(200 * U / 1024) + " kB\nSwapTotal: " + std::to_string(100 * U / 1024) + " kB\n");
       args["meminfo_location"] = meminfoPath;
       args["threshold"] = r.chance(50) ? std::to_string(thr) + "%" : (U == 1048576 ? std::to_string(thr) : std::to_string(thr * (U / 1048576)) + "M");
+      if (U == 67108864LL && r.chance(30)) {
+        // whole GiB spelled in tebibytes (2^-10 T is exact in decimal): 16 units of 64 MiB = 1 GiB = 0.0009765625T
+        int gib = r.pick(std::vector<int>{1, 2});
+        thr = 16 * gib;
+        args["threshold"] = gib == 1 ? "0.0009765625T" : "0.001953125T";
+      }
       if (family == 8) {
         // SwapTotal is not a multiple of 100 bytes; usages sit exactly at / next to pct% of it
         pctB = r.pick(std::vector<int>{7, 25, 33, 50, 99}); biased = false; args.erase("biased_swap_kill");
@@ -170,7 +176,11 @@ int main(int argc, char** argv) {
         fs.mkcg(s.name);
         long long use = tick < kTicks ? s.usage1 : s.usage;
         fs.write(s.name, "memory.current", std::to_string(use * U) + "\n");
-        fs.write(s.name, "memory.low", std::to_string((nested ? 2 : 1) * s.prot * U) + "\n");
+        // in the warm-up ticks the protections are different ones (a sum over siblings remembered from an earlier
+        // tick would be stale at the deciding tick)
+        long long lowUnits = (nested ? 2 : 1) * s.prot;
+        if (nested && tick < kTicks) lowUnits = 1;   // very different from the deciding tick's claims
+        fs.write(s.name, "memory.low", std::to_string(lowUnits * U) + "\n");
         fs.write(s.name, "memory.min", "0\n");
         fs.write(s.name, "memory.swap.current", family == 8
             ? std::to_string((long long)((__int128)swapTotalB * pctB / 100) + (s.swap - 1000)) + "\n" : std::to_string(s.swap * U) + "\n");
@@ -194,6 +204,9 @@ int main(int argc, char** argv) {
       ctx.refresh();
       ctx.bumpCurrentTick();
       pl->prerun(ctx);
+      // something else (a dump, another plugin) looks at the effective usage of the siblings in every tick
+      if (nested && tick < kTicks)
+        for (auto& s : S) if (auto c = ctx.addToCacheAndGet(Oomd::CgroupPath(fs.root(), s.name))) (void)c->get().effective_usage();
       if (tick == kTicks || (plugin == "kill_by_pg_scan" && tick == kTicks - 1)) pl->run(ctx);
       vclockAdvance(1000);
     }
